@@ -600,12 +600,17 @@ Proof.
             P (fold_left (fun r e => match e with EvModule p n k => reg_add r p n k | _ => r end) evs r)).
   { clear evs. induction evs as [|e evs IH]; intros r Hr; cbn [fold_left]; [exact Hr|].
     apply IH. destruct e as [p n k| |]; try exact Hr.
-    assert (Happ : forall a u, P (reg_append r p n k a u)).
-    { intros a u x Hx. unfold reg_append in Hx. cbn [r_rootkinds] in Hx.
-      destruct p; [|apply Hr; exact Hx].
-      apply in_app_or in Hx as [Hx|[Hx|[]]]; [apply Hr; exact Hx|]. subst x. destruct k; assumption. }
-    unfold reg_add. destruct (find _ (r_all r)) as [first|]; [|apply Happ].
-    destruct (m_pkg first && negb k); [|apply Happ]. intros x Hx. apply Hr. exact Hx. }
+    assert (Happ : forall a u ro, (forall x, In x (map ro_kind ro) -> In x (map fst kind_table)) ->
+                                  P (reg_append r p n k a u ro)).
+    { intros a u ro Hro x Hx. unfold reg_append, r_rootkinds in Hx. cbn [r_rootobjs] in Hx.
+      destruct p; [|apply Hro; exact Hx].
+      rewrite map_app in Hx. apply in_app_or in Hx as [Hx|[Hx|[]]]; [apply Hro; exact Hx|].
+      cbn [ro_kind] in Hx. subst x. destruct k; assumption. }
+    unfold reg_add. destruct (find _ (r_all r)) as [first|]; [|apply Happ; exact Hr].
+    destruct (m_pkg first && negb k); [intros x Hx; apply Hr; exact Hx|].
+    apply Happ. intros x Hx. apply Hr. unfold r_rootkinds.
+    apply in_map_iff in Hx as [o [Ho Hin]]. apply filter_In in Hin as [Hin _].
+    apply in_map_iff. exists o. split; assumption. }
   apply Hgen. intros k [].
 Qed.
 
